@@ -7,6 +7,21 @@ BASELINE_OFF = ("cd /repo && cargo nextest run --workspace --no-fail-fast --tool
                 "--test-threads 8 --offline || (cd /repo && cargo test --workspace --no-fail-fast --offline)")
 
 CHECKS = {
+ "C09": dict(
+   technique="proptest over portable statement specs; oracle = metamorphic / differential execution: the MySQL and Postgres renderings are transliterated token by token into SQLite spelling and all six texts (3 backends x 2 modes) are executed on the real SQLite engine, rows and table contents compared",
+   text="Exploration: 150 000 (quick) / 3 000 000 (thorough) statements from the portable subset (SELECT with joins, grouping, set operations incl. nested arms, NULLS / FIELD ordering, LIMIT / OFFSET, CTEs; INSERT VALUES / SELECT / default row; UPDATE; DELETE), each rendered for the three backends in both modes and executed after a purely lexical transliteration; function names that the source dialect does not define are reported.",
+   note="Only the structure the other backend produced is evaluated (on SQLite); no claim about MySQL / Postgres run-time semantics. Transliteration rules are listed in translit.rs; the portable subset excludes operators whose semantics differ between the engines.",
+   ref="DESIGN.md 4/C09"),
+ "C13": dict(
+   technique="exhaustive sweep (type x specification x ordered specification pairs) + proptest over table definitions followed by ALTER / INDEX / RENAME / DROP histories; oracle = reference catalogue model updated from the spec versus the real SQLite engine's catalogue (PRAGMAs, sqlite_master, probing inserts, typeof affinity probes)",
+   text="Exploration: an exhaustive sweep of 7 135 single-table definitions (every supported ColumnType x each specification x every ordered pair) plus 8 000 (quick) / 240 000 (thorough) random schema histories; after every statement the engine's catalogue must report exactly the declared objects (columns, nullability, defaults, keys, autoincrement, checks, indexes with direction / uniqueness / partial predicate, foreign keys with actions) and each type name must carry the intended storage affinity.",
+   note="Engine = system SQLite 3.40.1. Two engine facts are encoded as domain restrictions (listed in the evidence). Generated columns, WITHOUT ROWID / STRICT, compound default expressions and populated tables are out of scope.",
+   ref="DESIGN.md 4/C13"),
+ "C14": dict(
+   technique="exhaustive sweeps (type forms, ordered specification sequences, ALTER option sequences) + proptest over schema statements; oracle = recursive-descent DDL parsers for MySQL and Postgres over the harness's dialect lexers, recovered element inventory compared with the declared one, type names checked against lists of defined types",
+   text="Exploration: about 950 000 (quick) / 10 000 000 (thorough) CREATE TABLE / ALTER TABLE / index / foreign-key / type / extension statements for MySQL and Postgres; each rendering must parse under the transcribed DDL grammar into exactly the declared elements in declaration order, with a defined type name, preserved parameters and the dialect's auto-increment form.",
+   note="There is no MySQL / Postgres engine offline: grammars and type lists are transcribed from the manuals (c14/ddl.rs, c14/types.rs), lenient where the manuals leave doubt; the parsers are self-checked against the 91 DDL goldens of the repository's own tests (85 accepted, the 6 rejected are listed in the evidence).",
+   ref="DESIGN.md 4/C14"),
  "C07": dict(
    technique="proptest over executable statement specs; oracle = differential execution on the real SQLite engine against an independent, fully explicit reference rendering of the same spec (three runs per case: reference, inline, bound), rows and table contents compared",
    text="Exploration: 40 000 (quick) / 1 200 000 (thorough) generated SELECT / INSERT / UPDATE / DELETE statements over a fixed four-table database, normalised by construction into the SQLite-valid, deterministic domain; each is executed as reference SQL, as to_string output and as build output with bound values on fresh copies of the database; results (sequences when ordered, multisets otherwise), RETURNING rows and table snapshots must agree; run-time failures must agree too.",
